@@ -62,3 +62,23 @@ Definition st10_dec (n : N) : st10 :=
 Definition c10_mon (EP : N) (skip : N -> bool) (m i o : N) : option (N * bool) :=
   let s := st10_dec m in let ou := cx_unpack o in
   Some (st10_enc (c10_next skip s i ou), c10_ok EP skip s i ou).
+
+(* ---- the bRequest sweep (tie side): one directed control transfer per setup packet -------------------------
+   STANDARD request r (all 256 codes), recipient rc, wLength len, direction dirin, wValue val, wIndex 0x0081:
+   (from reset: the stage FSM awaits a SETUP packet) SETUP packet, then every kind of answer opportunity with a host ACK after each -- IN token + IN
+   opportunity + ACK, OUT token + OUT-data opportunity + ACK, IN token + IN opportunity + ACK -- so that whatever
+   stages (len, dirin) call for are visited and any state change an ACK would commit becomes visible. *)
+Definition sw_fields (r rc len dirin val : N) : N :=
+  dirin * 2 ^ 11 + rc * 2 ^ 14 + r * 2 ^ 19 + val * 2 ^ 27 + 129 * 2 ^ 43 + len * 2 ^ 59.
+Definition sw_trace (EP r rc len dirin val : N) : list N :=
+  let f := sw_fields r rc len dirin val + 64 * EP in
+  [ f + 16 + 2 ^ 10;                                     (* SETUP packet reported *)
+    f + 4 + 1; f + 4 + 2; f + 4 + 2 ^ 77;                 (* IN token; IN answer opportunity; host ACK *)
+    f + 8 + 1; f + 8 + 2 ^ 76; f + 8 + 2 ^ 77;            (* OUT token; OUT-data answer opportunity; host ACK *)
+    f + 4 + 1; f + 4 + 2; f + 4 + 2 ^ 77 ].               (* IN token; IN answer opportunity; host ACK *)
+Definition sw_recipients : list N := [0; 1; 2].            (* device, interface, endpoint *)
+Definition sw_stages : list (N * N) := [(0, 0); (8, 1); (8, 0)].   (* (wLength, direction): no data / IN data / OUT data *)
+Definition sw_values : list N := [0; 1].
+Definition sw_all (EP : N) : list (list N) :=
+  flat_map (fun r => flat_map (fun rc => flat_map (fun ld => map (fun v => sw_trace EP r rc (fst ld) (snd ld) v)
+    sw_values) sw_stages) sw_recipients) (map N.of_nat (seq 0 256)).
